@@ -344,3 +344,63 @@ func VH_C01_CountBoundary() {
 	vassert(vbytesEq(tx2.Bytes(), b), "count boundary: bytes reproduced")
 	vreach("count-done")
 }
+
+// vencVarint encodes v in one of the four varint forms (minimal or not), chosen by the solver.
+func vencVarint(tag string, v int) []byte {
+	switch vnondetLen(tag, 0, 3) {
+	case 0:
+		if v < 0xfd {
+			return []byte{byte(v)}
+		}
+		return []byte{0xfd, byte(v), byte(v >> 8)}
+	case 1:
+		return []byte{0xfd, byte(v), byte(v >> 8)}
+	case 2:
+		return []byte{0xfe, byte(v), byte(v >> 8), 0, 0}
+	}
+	return []byte{0xff, byte(v), byte(v >> 8), 0, 0, 0, 0, 0, 0}
+}
+
+// C01-H2b: buffers whose counts and length prefixes use any (also non-minimal) varint form are
+// consumed exactly to the end by single, stream and block-list parsing.
+func VH_C01_NonMinimal() {
+	nIn := vnondetLen("nin", 0, 1)
+	nOut := vnondetLen("nout", 0, 1)
+	b := vnondetBytes("version", 4, 4)
+	b = append(b, vencVarint("incount-form", nIn)...)
+	for i := 0; i < nIn; i++ {
+		b = append(b, vnondetBytes("outpoint", 36, 36)...)
+		sl := vnondetLen("uslen", 0, 1)
+		b = append(b, vencVarint("uslen-form", sl)...)
+		b = append(b, vnondetBytes("us", sl, sl)...)
+		b = append(b, vnondetBytes("seq", 4, 4)...)
+	}
+	if nIn > 0 || nOut > 0 || true {
+		b = append(b, vencVarint("outcount-form", nOut)...)
+	}
+	for i := 0; i < nOut; i++ {
+		b = append(b, vnondetBytes("sats", 8, 8)...)
+		sl := vnondetLen("lslen", 0, 2)
+		b = append(b, vencVarint("lslen-form", sl)...)
+		b = append(b, vnondetBytes("ls", sl, sl)...)
+	}
+	lt := vnondetBytes("locktime", 4, 4)
+	if nIn == 0 && nOut == 0 {
+		vassume(!(lt[0] == 0 && lt[1] == 0 && lt[2] == 0 && lt[3] == 0xEF))
+	}
+	b = append(b, lt...)
+	tx, used, err := NewTxFromStream(b)
+	vassert(err == nil && used == len(b), "non-minimal: stream parse consumes exactly the transaction")
+	_, err2 := NewTxFromBytes(b)
+	vassert(err2 == nil, "non-minimal: NewTxFromBytes accepts the exact buffer")
+	if err == nil {
+		vassert(len(tx.Inputs) == nIn && len(tx.Outputs) == nOut, "non-minimal: counts decoded")
+	}
+	// two transactions back to back as a counted list
+	list := append([]byte{2}, b...)
+	list = append(list, b...)
+	var tt Txs
+	n, err3 := tt.ReadFrom(bytes.NewReader(list))
+	vassert(err3 == nil && n == int64(len(list)) && len(tt) == 2, "non-minimal: block-list parse consumes exactly both transactions")
+	vreach("nonminimal-done")
+}
